@@ -35,8 +35,9 @@ def dist_case(draw, big=False):
     else:
         prog = draw(gen.flat_program(min_n=1, max_n=5, max_ops=7))
     prog, _ = gen.limit_loss(prog, 6)
+    prog = gen.cap_herald_photons(prog, cap=20000 if big else 2000)
     nv = prog["n"] - gen.count_heralds(prog)
-    nph = gen.fit_photons(prog, draw(st.integers(0, 4 if big else 3)), cap=20000 if big else 6000)
+    nph = gen.fit_photons(prog, draw(st.integers(0, 4 if big else 3)), cap=20000 if big else 2000)
     return {"prog": prog, "input": draw(gen.fock_state(nv, nph))}
 
 
